@@ -285,6 +285,8 @@ func fuzzSeeds() [][]byte {
 	kp := lib.GetKeyPair("ed1")
 	for idx := 0; idx < 8; idx++ {
 		add(historyLayout(1, idx, kp))
+		x, _ := invGen(1, idx, kp) // U+FEFF and other invisible code points inside strings
+		add(x)
 	}
 	for _, s := range []string{
 		`{"_type":"link","name":"n","materials":null,"products":{},"byproducts":null,"command":null,"environment":{}}`,
